@@ -60,6 +60,16 @@ func runResidueDirected(e *Env) {
 		}
 		residueAfterClose(e, rep)
 	}
+	for rep := 0; rep < e.Pick(2, 8); rep++ {
+		if e.Of > 1 && rep%e.Of != e.Batch {
+			continue
+		}
+		if R.NumViolations() > 6 {
+			return
+		}
+		residueHeapUnreachable(e, rep)
+		residueHeap(e, rep, false)
+	}
 }
 
 func residueAfterAnswers(e *Env, m string, skipOne, reachable bool, buffer uint) {
@@ -311,4 +321,105 @@ func residueAfterClose(e *Env, rep int) {
 	}
 	R.Eval(fmt.Sprintf("directed|after-close|%d", rep), true)
 	R.Count("directed.calls_made_on_a_closed_manager", K)
+}
+
+// residueHeapUnreachable: (4) "the amount of per-call bookkeeping stays bounded by what is currently outstanding", observed as the
+// process's live heap: calls to a node that has been unreachable since the manager was created (non-blocking dial) each fail and
+// return; after a warm-up, three windows of 1000 such calls each are run and the number of live heap objects is read after two
+// garbage collections at each window's end. A library that keeps something per completed call shows a steady growth of at least
+// one object per call in every window (measured on the pinned tree before repair 4.1 in each of four windows; after it 0.2,
+// 0.1, 0.03, 0.04); the verdict is "violated" only if *both* of the last two windows grow by more than one object per call.
+func residueHeapUnreachable(e *Env, rep int) { residueHeap(e, rep, true) }
+
+// residueHeap with unreachable=false: the same heap monitor over completed calls of six kinds on healthy nodes.
+func residueHeap(e *Env, rep int, unreachable bool) {
+	R := e.R
+	var downList []int
+	what := "healthy nodes"
+	if unreachable {
+		downList = []int{rep % 2}
+		what = "a node unreachable since creation (non-blocking dial)"
+	}
+	cl, err := h.NewCluster(h.Options{N: 2, Block: !unreachable, DialTimeout: 200 * time.Millisecond, Down: downList, SendBuffer: uint(rep%2) * 4})
+	if err != nil {
+		R.Inconc("cluster: " + err.Error())
+		return
+	}
+	defer cl.Close()
+	down := rep % 2
+	call := func(k int) {
+		tok := h.NewToken()
+		req := &puppet.Req{Call: tok, Seq: tok, Kind: 18}
+		ctx, cancel := context.WithTimeout(context.Background(), 2*time.Second)
+		defer cancel()
+		mod := 3
+		if !unreachable {
+			mod = 6
+		}
+		switch k % mod {
+		case 0:
+			cl.Node(down).RPC(ctx, req)
+		case 1:
+			cl.Node(down).Uni(ctx, req)
+		default:
+			cl.QS.Register(&h.CallMon{Token: tok, Orig: req, Decide: func(inv *h.Inv) (bool, int) { return len(inv.Keys) >= 2, len(inv.Keys) }})
+			switch k % mod {
+			case 2:
+				cl.Cfg.QC(ctx, req)
+			case 3:
+				cl.Cfg.Async(ctx, req).Get()
+			case 4:
+				<-cl.Cfg.Corr(ctx, req).Done()
+			default:
+				cl.Cfg.Multi(ctx, req)
+			}
+			cl.QS.Unregister(tok)
+		}
+	}
+	objs := func() int64 {
+		runtime.GC()
+		time.Sleep(40 * time.Millisecond)
+		runtime.GC()
+		var m runtime.MemStats
+		runtime.ReadMemStats(&m)
+		return int64(m.HeapObjects)
+	}
+	run := func(k int) bool {
+		t := h.Go("c18:heap", func() {
+			for i := 0; i < k; i++ {
+				call(i)
+			}
+		})
+		return h.Await(t, e.W+60*time.Second).Verdict == h.Returned
+	}
+	if !run(300) {
+		R.Inconc("warm-up calls to an unreachable node did not return")
+		return
+	}
+	const per = 1000
+	prev := objs()
+	var growth []float64
+	for w := 0; w < 3; w++ {
+		if !run(per) {
+			R.Inconc("calls to an unreachable node did not return")
+			return
+		}
+		for _, sv := range cl.Srvs {
+			sv.ResetLog() // (the harness's own record of handled requests)
+		}
+		o := objs()
+		growth = append(growth, float64(o-prev)/per)
+		prev = o
+	}
+	if unreachable {
+		R.Max("max.heap_objects_per_completed_call_to_an_unreachable_node(x100)", int64(growth[2]*100))
+	} else {
+		R.Max("max.heap_objects_per_completed_call_on_healthy_nodes(x100)", int64(growth[2]*100))
+	}
+	if growth[1] > 1 && growth[2] > 1 {
+		R.Violate("heap-grows-with-completed-calls", fmt.Sprintf("completed calls on %s leave something behind: live heap objects after GC grew by %.2f, %.2f and %.2f per call over three windows of %d completed calls", what, growth[0], growth[1], growth[2], per),
+			map[string]any{"node_index": down, "per_window_growth_in_objects_per_call": growth, "goroutines": runtime.NumGoroutine()})
+	}
+	R.Eval(fmt.Sprintf("directed|heap|unreachable=%v|%d", unreachable, rep), true)
+	R.Count("directed.completed_calls_under_the_heap_monitor", 3*per)
 }
